@@ -326,8 +326,12 @@ func invoke(f *ociregistry.Funcs, m int, ctx context.Context, salt, variant int)
 	}
 	pickI := func(v ...int64) int64 { return v[class()] }
 	pickS := func(v ...string) string { return v[class()] }
-	if class() == 1 {
+	switch class() {
+	case 1:
 		tag = ""
+	case 3:
+		// a tag is a string like any other to the table, whatever it looks like: a digest, a reference
+		tag = []string{string(dig), "sha256:" + strings.Repeat("0", 64), "sha512:" + strings.Repeat("ab", 64), "latest@" + string(dig), "host.example:5000/r:t"}[(salt/5)%5]
 	}
 	switch m {
 	case 0:
